@@ -9,3 +9,7 @@ func VerifSlotStore(base uintptr, idx uint32) {}
 func verifSlotInit(c *RuntimeContext)         {}
 func verifSlotPtrs(c *RuntimeContext)         {}
 func verifSlotRelease(c *RuntimeContext)      {}
+
+// no-op twins of verif_poison.go
+func verifPoisonCtx(c *RuntimeContext) {}
+func verifPoisonMapCtx(c *MapContext)  {}
